@@ -123,29 +123,7 @@ func fieldsN(s string, n int) []string {
 
 func init() {
 	StringType.Dict["endswith"] = MustNewMethod("endswith", func(self Object, args Tuple) (Object, error) {
-		selfStr := string(self.(String))
-		suffix := []string{}
-		if len(args) > 0 {
-			if s, ok := args[0].(String); ok {
-				suffix = append(suffix, string(s))
-			} else if s, ok := args[0].(Tuple); ok {
-				for _, t := range s {
-					if v, ok := t.(String); ok {
-						suffix = append(suffix, string(v))
-					}
-				}
-			} else {
-				return nil, ExceptionNewf(TypeError, "endswith first arg must be str, unicode, or tuple, not %s", args[0].Type())
-			}
-		} else {
-			return nil, ExceptionNewf(TypeError, "endswith() takes at least 1 argument (0 given)")
-		}
-		for _, s := range suffix {
-			if strings.HasSuffix(selfStr, s) {
-				return Bool(true), nil
-			}
-		}
-		return Bool(false), nil
+		return self.(String).tailMatch("endswith", args, true)
 	}, 0, "endswith(suffix[, start[, end]]) -> bool")
 
 	StringType.Dict["count"] = MustNewMethod("count", func(self Object, args Tuple) (Object, error) {
@@ -182,35 +160,7 @@ replaced.`)
 	}, 0, "split(sub) -> split string with sub.")
 
 	StringType.Dict["startswith"] = MustNewMethod("startswith", func(self Object, args Tuple) (Object, error) {
-		selfStr := string(self.(String))
-		prefix := []string{}
-		if len(args) > 0 {
-			if s, ok := args[0].(String); ok {
-				prefix = append(prefix, string(s))
-			} else if s, ok := args[0].(Tuple); ok {
-				for _, t := range s {
-					if v, ok := t.(String); ok {
-						prefix = append(prefix, string(v))
-					}
-				}
-			} else {
-				return nil, ExceptionNewf(TypeError, "startswith first arg must be str, unicode, or tuple, not %s", args[0].Type())
-			}
-		} else {
-			return nil, ExceptionNewf(TypeError, "startswith() takes at least 1 argument (0 given)")
-		}
-		if len(args) > 1 {
-			if s, ok := args[1].(Int); ok {
-				selfStr = selfStr[s:]
-			}
-		}
-
-		for _, s := range prefix {
-			if strings.HasPrefix(selfStr, s) {
-				return Bool(true), nil
-			}
-		}
-		return Bool(false), nil
+		return self.(String).tailMatch("startswith", args, false)
 	}, 0, "startswith(prefix[, start[, end]]) -> bool")
 
 	StringType.Dict["strip"] = MustNewMethod("strip", func(self Object, args Tuple, kwargs StringDict) (Object, error) {
@@ -661,6 +611,56 @@ func stringIndices(pybeg, pyend Object, length int) (beg, end int, err error) {
 		}
 	}
 	return beg, end, nil
+}
+
+// tailMatch implements startswith (atEnd false) and endswith (atEnd
+// true): does s[start:end], in characters, start / end with one of
+// the given affixes
+func (s String) tailMatch(name string, args Tuple, atEnd bool) (Object, error) {
+	affixes := []String{}
+	if len(args) == 0 {
+		return nil, ExceptionNewf(TypeError, "%s() takes at least 1 argument (0 given)", name)
+	}
+	if len(args) > 3 {
+		return nil, ExceptionNewf(TypeError, "%s() takes at most 3 arguments (%d given)", name, len(args))
+	}
+	if a, ok := args[0].(String); ok {
+		affixes = append(affixes, a)
+	} else if a, ok := args[0].(Tuple); ok {
+		for _, t := range a {
+			if v, ok := t.(String); ok {
+				affixes = append(affixes, v)
+			}
+		}
+	} else {
+		return nil, ExceptionNewf(TypeError, "%s first arg must be str, unicode, or tuple, not %s", name, args[0].Type())
+	}
+	var pybeg, pyend Object
+	if len(args) > 1 {
+		pybeg = args[1]
+	}
+	if len(args) > 2 {
+		pyend = args[2]
+	}
+	size := s.len()
+	beg, end, err := stringIndices(pybeg, pyend, size)
+	if err != nil {
+		return nil, err
+	}
+	for _, affix := range affixes {
+		if end-beg < affix.len() {
+			continue
+		}
+		sub := string(s.slice(beg, end, size))
+		if atEnd {
+			if strings.HasSuffix(sub, string(affix)) {
+				return True, nil
+			}
+		} else if strings.HasPrefix(sub, string(affix)) {
+			return True, nil
+		}
+	}
+	return False, nil
 }
 
 func (s String) Count(args Tuple) (Object, error) {
